@@ -72,7 +72,7 @@ func newSMT(pre *Prelude, tier string, seed int) (*SMT, error) {
 	if err != nil {
 		return nil, err
 	}
-	s := &SMT{dir: dir, tier: tier, seed: seed, cache: map[string]*SolveResult{}, byBack: map[string]int{}, timeoutQ: 20, timeoutT: 120}
+	s := &SMT{dir: dir, tier: tier, seed: seed, cache: map[string]*SolveResult{}, byBack: map[string]int{}, timeoutQ: 60, timeoutT: 180}
 	// split the prelude into the unconditional part and ;@when chunks
 	var base strings.Builder
 	var cur *condChunk
